@@ -128,6 +128,8 @@ def kinds():
     K['ECB-AES-nopadding'] = (ecbn, [('enc(2 blocks)', lambda o: o.enc(M2[:32])), ('enc(partial)!', lambda o: o.enc(M1)), ('enc(1 block)', lambda o: o.enc(B16)), ('dec(1 block)', lambda o: o.dec(B16))], None)
     ctr = lambda: CTR(AES(K16), IV16)
     K['CTR-AES'] = (ctr, [('enc(M1)', lambda o: o.enc(M1)), ('enc(empty)', lambda o: o.enc(M0)), ('enc(M2)', lambda o: o.enc(M2)), ('dec(M1)', lambda o: o.dec(M1)), ('enc(int)!', lambda o: o.enc(5))], None)
+    ctrw = lambda: CTR(AES(K16), IV16[:8] + b'\xff' * 7 + b'\xfe')
+    K['CTR-AES-wrapping-counter'] = (ctrw, [('enc(M1)', lambda o: o.enc(M1)), ('enc(M2)', lambda o: o.enc(M2)), ('enc(3 bytes)', lambda o: o.enc(b'abc')), ('dec(M2)', lambda o: o.dec(M2))], None)
     K['CTS_ECB-AES'] = (lambda: CTS_ECB(AES(K16)), [('enc(M1)', lambda o: o.enc(M1)), ('enc(2 blocks)', lambda o: o.enc(M2[:32])), ('enc(M2)', lambda o: o.enc(M2)), ('dec(M1)', lambda o: o.dec(M1)), ('enc(short)!', lambda o: o.enc(b'abc'))], None)
     K['CTS_CBC-DES'] = (lambda: CTS_CBC(DES(K8), IV8), [('enc(M1)', lambda o: o.enc(M1)), ('enc(2 blocks)', lambda o: o.enc(M2[:16])), ('enc(M2)', lambda o: o.enc(M2)), ('dec(M1)', lambda o: o.dec(M1))], None)
     V = lambda: Bits(IV8, bitorder=1); V2 = lambda: Bits(B8, bitorder=1)
@@ -183,7 +185,7 @@ def K():
 def kind_names():
     return ['SHA1', 'SHA0', 'SHA2-256', 'SHA2-512/224', 'MD4', 'MD5', 'SHA3-256', 'Keccak', 'Keccak-200', 'MD6', 'Blake256', 'Blake512', 'Blake2b', 'Blake2s',
             'Skein256', 'Skein512-mac-tree', 'HMAC-SHA256', 'HMAC-MD5-longkey', 'TLSH128', 'TLSH48-3', 'Nilsimsa', 'AES128', 'AES256', 'DES', 'TDEA', 'Serpent',
-            'Threefish256', 'ECB-AES', 'CBC-AES', 'CBC-DES-X923', 'ECB-TDEA', 'ECB-AES-nopadding', 'CTR-AES', 'CTS_ECB-AES', 'CTS_CBC-DES', 'Salsa20',
+            'Threefish256', 'ECB-AES', 'CBC-AES', 'CBC-DES-X923', 'ECB-TDEA', 'ECB-AES-nopadding', 'CTR-AES', 'CTR-AES-wrapping-counter', 'CTS_ECB-AES', 'CTS_CBC-DES', 'Salsa20',
             'Chacha-128-12', 'crc (functions)', 'knapsack (functions)', 'AES-family (integer-equal keys)', 'Threefish-family', 'Skein-family (same No)',
             'Chacha/Salsa-family', 'Nilsimsa-family', 'TLSH-family', 'SHA-family', 'Keccak-family', 'Blake-family', 'MD6-family', 'HMAC-family (shared hash object)',
             'mode-family (shared cipher object)']
@@ -191,7 +193,7 @@ def kind_names():
 ALPHA = {'SHA1': 7, 'SHA0': 4, 'SHA2-256': 7, 'SHA2-512/224': 7, 'MD4': 7, 'MD5': 7, 'SHA3-256': 4, 'Keccak': 8, 'Keccak-200': 4, 'MD6': 5, 'Blake256': 7, 'Blake512': 5,
          'Blake2b': 9, 'Blake2s': 9, 'Skein256': 5, 'Skein512-mac-tree': 4, 'HMAC-SHA256': 4, 'HMAC-MD5-longkey': 3, 'TLSH128': 7, 'TLSH48-3': 5, 'Nilsimsa': 6,
          'AES128': 5, 'AES256': 3, 'DES': 5, 'TDEA': 4, 'Serpent': 4, 'Threefish256': 5, 'ECB-AES': 7, 'CBC-AES': 7, 'CBC-DES-X923': 7, 'ECB-TDEA': 7,
-         'ECB-AES-nopadding': 4, 'CTR-AES': 5, 'CTS_ECB-AES': 5, 'CTS_CBC-DES': 4, 'Salsa20': 7, 'Chacha-128-12': 5, 'crc (functions)': 6, 'knapsack (functions)': 5, 'AES-family (integer-equal keys)': 5, 'Threefish-family': 6, 'Skein-family (same No)': 5,
+         'ECB-AES-nopadding': 4, 'CTR-AES': 5, 'CTR-AES-wrapping-counter': 4, 'CTS_ECB-AES': 5, 'CTS_CBC-DES': 4, 'Salsa20': 7, 'Chacha-128-12': 5, 'crc (functions)': 6, 'knapsack (functions)': 5, 'AES-family (integer-equal keys)': 5, 'Threefish-family': 6, 'Skein-family (same No)': 5,
          'Chacha/Salsa-family': 5, 'Nilsimsa-family': 4, 'TLSH-family': 4, 'SHA-family': 8, 'Keccak-family': 5, 'Blake-family': 6, 'MD6-family': 4,
          'HMAC-family (shared hash object)': 4, 'mode-family (shared cipher object)': 6}
 
